@@ -679,16 +679,22 @@ func c12frames(st *c12state, cat string, r *rand.Rand) [][]byte {
 		_, o := target()
 		var b ref.Buf
 		b.ValStr("level")
-		switch k := int(r.Uint32()) % 8; {
-		case k < 6:
-			depth := []int{300, 30000, 300, 30000, 400000, 4000000}[k]
+		k := int(r.Uint32()) % 24
+		switch {
+		case k == 23:
+			// structures nested in structures: a few dozen bytes
+			depth := 18
+			b.Str(strings.Repeat("(", depth) + "i" + strings.Repeat(")", depth))
+			b.U32(0)
+		case k%8 < 6:
+			depth := []int{300, 30000, 300, 30000, 400000, 4000000}[k%8]
 			b.Str(strings.Repeat("[", depth) + "i" + strings.Repeat("]", depth))
 			b.U32(0)
 		default:
 			// elements that take no room on the wire
-			b.Str([]string{"[v]", "[[v]]"}[k-6])
+			b.Str([]string{"[v]", "[[v]]"}[k%8-6])
 			b.U32(0xfffffff0)
-			if k == 7 {
+			if k%8 == 7 {
 				b.U32(0xfffffff0)
 			}
 		}
